@@ -273,6 +273,10 @@ def gen_op(rng, w):
         t = rng.choice(names)
         how = rng.choice(['matrix', 'pos', 'slice', 'copy', 'deepcopy'] + ['pickle:%d' % k for k in range(6)] +
                          ['picklestream:%d' % k for k in (0, 2, 4, 5)])
+        if how == 'slice' and rng.random() < 0.6 and not w.objs[w.names[t][0]]['sparse']:
+            # a genuine sub-block: still an independent copy
+            M_ = w.objs[w.names[t][0]]['M']
+            return ['copy', w.fresh(), t, 'sliceidx', SPS.gen_index(rng, M_.m, for_assign=False), SPS.gen_index(rng, M_.n, for_assign=False)]
         return ['copy', w.fresh(), t, how]
     if r < 0.88:
         return ['rebind', w.fresh(), rng.choice(names)]
@@ -585,6 +589,28 @@ def apply(op, w, stats, rngless=None):
             Y = spmatrix(X.V, X.I, X.J, X.size, X.typecode) if e['sparse'] else matrix(X)
         elif how == 'pos':
             Y = +X
+        elif how == 'sliceidx':
+            try:
+                M2x = MDL.get2(M, op[4], op[5])
+            except MDL.Refuse:
+                return
+            if not isinstance(M2x, MDL.MM):
+                return          # two integers: a number, not a matrix
+            Y = X[SPS.mkidx(op[4]), SPS.mkidx(op[5])]
+            SPS.check_indices()
+            if not same_dense(Y, M2x):
+                raise Mismatch('roundtrip-differs', 'X[I, J] does not reproduce the selected block', op='copy', how='sliceidx', sparse=False)
+            if len(X) > 0 and len(Y) > 0:
+                saved = list(X)
+                for q_ in range(len(X)):
+                    X[q_] = M.v[q_] + 1 if same_value(M.v[q_] + 1, M.v[q_]) is False else M.v[q_]
+                indep = same_dense(Y, M2x)
+                for q_ in range(len(X)):
+                    X[q_] = saved[q_]
+                if not indep:
+                    raise Mismatch('copy-shares-storage', 'a change of the original is visible in a block obtained by indexing', op='copy', how='sliceidx')
+            w.bind(op[1], Y, M2x)
+            return
         elif how == 'slice':
             Y = X[:, :]
         elif how == 'copy':
